@@ -143,6 +143,12 @@ def gen_decode_cases(ctx):
         pairs = rng.sample(pairs, 6000)
     for a, b in pairs:
         out.append((2, bytes([a, b]), 1))
+    # every lead byte followed by two bytes from the boundary set (class edges of the case analysis)
+    edge = [0x00, 0x7F, 0x80, 0xBF, 0xC0, 0xFF] if ctx.quick else INTERESTING
+    for a in range(0x80, 0x100):
+        for b in edge:
+            for c in edge:
+                out.append((3, bytes([a, b, c]), (a ^ b ^ c) & 1))
     # valid encodings, mutated / truncated / extended
     n = 25000 if ctx.quick else 400000
     for _ in range(n):
@@ -226,11 +232,12 @@ def gen_cases(ctx):
 
 # ----------------------------------------------------------------------------- property oracle
 def oracle_line(case, out, dgroups):
-    """Evaluate the property on one line the C implementation produced.  Returns None or a reason."""
+    """Evaluate the property on one line the C implementation produced.  Returns None or (kind, message)."""
     f = case.split()
     o = out.split()
-    if not o or o[0] == "CRASH":
-        return "the implementation read or wrote outside the buffer it was given (SIGSEGV at the guard page)"
+    if not o or o[0] in ("CRASH", "ABORT"):
+        return ("out-of-bounds-access", "the implementation read or wrote outside the buffer it was given "
+                    "(SIGSEGV at the guard page / sanitizer report): " + out[:200])
     try:
         if f[0] == "E":
             v = int(f[1])
@@ -239,11 +246,11 @@ def oracle_line(case, out, dgroups):
             n0, n, h0, h1 = int(o[1]), int(o[2]), o[3], o[4]
             want = hx(ref_enc(v))
             if n0 != ref_len(v):
-                return "a_utf_encode(%#x, NULL) = %d, the table prescribes %d bytes" % (v, n0, ref_len(v))
+                return ("encode-length", "a_utf_encode(%#x, NULL) = %d, the table prescribes %d bytes" % (v, n0, ref_len(v)))
             if n != ref_len(v):
-                return "a_utf_encode(%#x, buf) = %d, the table prescribes %d bytes" % (v, n, ref_len(v))
+                return ("encode-length", "a_utf_encode(%#x, buf) = %d, the table prescribes %d bytes" % (v, n, ref_len(v)))
             if h0 != want or h1 != want:
-                return "a_utf_encode(%#x) stored %s / %s (buffer pre-filled 00 / FF), the table prescribes %s" % (v, h0, h1, want)
+                return ("encode-bytes", "a_utf_encode(%#x) stored %s / %s (buffer pre-filled 00 / FF), the table prescribes %s" % (v, h0, h1, want))
             return None
         if f[0] == "R":
             v = int(f[1])
@@ -251,35 +258,37 @@ def oracle_line(case, out, dgroups):
                 return None
             n = int(o[1])
             if n != ref_len(v):
-                return "a_utf_encode(%#x) = %d bytes, the table prescribes %d" % (v, n, ref_len(v))
+                return ("encode-length", "a_utf_encode(%#x) = %d bytes, the table prescribes %d" % (v, n, ref_len(v)))
             if o[2] != hx(ref_enc(v)):
-                return "a_utf_encode(%#x) stored %s, the table prescribes %s" % (v, o[2], hx(ref_enc(v)))
+                return ("encode-bytes", "a_utf_encode(%#x) stored %s, the table prescribes %s" % (v, o[2], hx(ref_enc(v))))
             if o[3] != str(n) or o[4] != str(v):
-                return "a_utf_decode(encode(%#x)=%s, %d) = (%s, %s), expected (%d, %d)" % (v, o[2], n, o[3], o[4], n, v)
+                return ("round-trip", "a_utf_decode(encode(%#x)=%s, %d) = (%s, %s), expected (%d, %d)" % (v, o[2], n, o[3], o[4], n, v))
             if o[5] != str(n):
-                return "a_utf_decode(encode(%#x), %d, NULL) = %s, expected %d" % (v, n, o[5], n)
+                return ("round-trip-null", "a_utf_decode(encode(%#x), %d, NULL) = %s, expected %d" % (v, n, o[5], n))
             bar = o.index("|")
             bar2 = o.index("|", bar + 1)
             pre = o[bar + 1:bar2]
             for k in range(n):
                 if pre[2 * k] != "0":
-                    return "a_utf_decode on the %d-byte proper prefix of encode(%#x)=%s returned %s, expected failure (0)" % (k, v, o[2], pre[2 * k])
+                    return ("prefix-accepted", "a_utf_decode on the %d-byte proper prefix of encode(%#x)=%s returned %s, "
+                            "expected failure (0)" % (k, v, o[2], pre[2 * k]))
             if o[bar2 + 1] != str(n) or o[bar2 + 2] != str(v):
-                return "a_utf_decode(encode(%#x) ++ BF, %d) = (%s, %s), expected (%d, %d)" % (v, n + 1, o[bar2 + 1], o[bar2 + 2], n, v)
+                return ("round-trip-trailing", "a_utf_decode(encode(%#x) ++ BF, %d) = (%s, %s), expected (%d, %d)" % (v, n + 1, o[bar2 + 1], o[bar2 + 2], n, v))
             return None
         if f[0] == "D":
             num, b, want = int(f[1]), unhx(f[2]), int(f[3])
             ret = int(o[1])
             if ret > num:
-                return "a_utf_decode(%s, num=%d) reports %d bytes, more than are available" % (f[2], num, ret)
+                return ("reports-more-than-available", "a_utf_decode(%s, num=%d) reports %d bytes, more than are available" % (f[2], num, ret))
             if ret >= 2 and not all(is_cont(c) for c in b[1:ret]):
-                return "a_utf_decode(%s, num=%d) accepted a %d-byte sequence whose trailing bytes are not all continuation bytes" % (f[2], num, ret)
+                return ("non-continuation-accepted", "a_utf_decode(%s, num=%d) accepted a %d-byte sequence whose trailing bytes are "
+                        "not all continuation bytes" % (f[2], num, ret))
             key = (num, b[:num], want)
             prev = dgroups.get(key)
             if prev is None:
                 dgroups[key] = (out, f[2])
             elif prev[0] != out:
-                return ("a_utf_decode with num=%d gives %r on memory %s but %r on memory %s: "
+                return ("reads-beyond-num", "a_utf_decode with num=%d gives %r on memory %s but %r on memory %s: "
                         "bytes beyond the stated length were read" % (num, prev[0], prev[1], out, f[2]))
             return None
         if f[0] == "L":
@@ -289,17 +298,17 @@ def oracle_line(case, out, dgroups):
             chain = [int(x) for x in o[bar + 1:]]
             pos = [r for r in chain if r > 0]
             if chain and chain[-1] != 0:
-                return "a_utf_decode reports %d bytes with fewer left (inside a_utf_length walk of %s, num=%d)" % (chain[-1], f[2], num)
+                return ("reports-more-than-available", "a_utf_decode reports %d bytes with fewer left (walking %s, num=%d)" % (chain[-1], f[2], num))
             if int(ln) != len(pos) or int(stop) != sum(pos):
-                return ("a_utf_length(%s, num=%d) = %s with stop=%s, but the decoder reports the lengths %s "
+                return ("length-walk", "a_utf_length(%s, num=%d) = %s with stop=%s, but the decoder reports the lengths %s "
                         "(count %d, sum %d)" % (f[2], num, ln, stop, chain, len(pos), sum(pos)))
             if ln2 != ln:
-                return "a_utf_length(%s, num=%d, NULL) = %s but %s with a stop pointer" % (f[2], num, ln2, ln)
+                return ("length-null", "a_utf_length(%s, num=%d, NULL) = %s but %s with a stop pointer" % (f[2], num, ln2, ln))
             if int(stop) > num:
-                return "a_utf_length(%s, num=%d) consumed %s bytes" % (f[2], num, stop)
+                return ("length-overrun", "a_utf_length(%s, num=%d) consumed %s bytes" % (f[2], num, stop))
             return None
     except (ValueError, IndexError):
-        return "unparsable output line %r for case %r" % (out, case)
+        return ("unparsable", "unparsable output line %r for case %r" % (out, case))
     return None
 
 
@@ -310,9 +319,9 @@ def run_bin(binp, text, timeout=600):
     return rc, out.splitlines(), err
 
 
-def run_c_cases(cbin, lines):
-    """Run the C driver; a crash consumes the case it happened on and the run resumes behind it,
-    so that every case has an output line.  Returns (outputs, [(index, stderr-tail)])."""
+def run_c_cases(cbin, lines, max_crashes=6):
+    """Run the C driver; a crash consumes the case it happened on and the run resumes behind it.
+    Returns (outputs, [(index, stderr-tail)]); after max_crashes crashes the rest is not run."""
     outs, crashes = [], []
     start = 0
     while start < len(lines):
@@ -320,15 +329,15 @@ def run_c_cases(cbin, lines):
         outs.extend(o)
         if rc == 0:
             break
-        # crashed on case len(outs)-1 (CRASH line printed by the handler) or sanitizer abort
-        if o and o[-1].startswith("CRASH"):
+        # the handler printed CRASH/ABORT for the case it died on; otherwise blame the next case
+        if o and (o[-1].startswith("CRASH") or o[-1].startswith("ABORT")):
             idx = len(outs) - 1
         else:
             idx = len(outs)
             outs.append("ABORT " + " ".join(err.split())[:200])
         crashes.append((idx, err[-1500:]))
         start = idx + 1
-        if len(crashes) > 20:
+        if len(crashes) >= max_crashes:
             break
     return outs, crashes
 
@@ -384,7 +393,7 @@ def shrink_case(cbin, case):
     def fails(c):
         rc, o, err = run_bin(cbin, c + "\n", timeout=30)
         line = o[0] if o else "CRASH"
-        if rc != 0 and not (o and o[0].startswith("CRASH")):
+        if rc != 0:
             return True
         return oracle_line(c, line, {}) is not None
     f = case.split()
@@ -506,60 +515,58 @@ def run(ctx):
 
     # ---- search oracle (Python, on every line the C produced)
     dgroups = {}
-    hits = []
+    hits = []            # (case index or -1, case line, kind, message)
     for i, case in enumerate(lines):
         if i >= len(c_out):
             break
-        why = oracle_line(case, c_out[i], dgroups)
-        if why:
-            hits.append((i, case, why))
+        res = oracle_line(case, c_out[i], dgroups)
+        if res:
+            hits.append((i, case, res[0], res[1]))
     # ---- search oracle (C sweep)
     t0 = time.time()
     checked, sfails = c_sweep(ctx, sbin)
-    ctx.log("C-side spec sweep: %d code points in %.1fs, %d failures" % (checked, time.time() - t0, len(sfails)))
-    for ln in sfails[:50]:
+    ctx.log("C-side spec sweep: %d code points in %.1fs, %d failure lines" % (checked, time.time() - t0, len(sfails)))
+    for ln in sfails[:40]:
         p = ln.split(None, 2)
         if p[0] in ("FAIL", "CRASH") and len(p) > 1 and p[1].isdigit():
             case = "R %s" % p[1]
             rc, o, err = run_bin(cbin, case + "\n", timeout=30)
-            why = oracle_line(case, o[0] if o else "CRASH", {}) or (p[2] if len(p) > 2 else "crash in sweep")
-            hits.append((-1, case, why))
+            res = oracle_line(case, o[0] if o else "CRASH", {}) or ("sweep", p[2] if len(p) > 2 else "crash in the C sweep")
+            hits.append((-1, case, res[0], res[1]))
         else:
-            hits.append((-1, "?", ln))
+            hits.append((-1, "?", "sweep", ln))
+    if hits and not ctx.broken_ties:
+        ctx.tie_broken("the property oracle fails on the implementation's output (%d cases)" % len(hits))
 
-    # ---- report: group by kind of failure, shrink the first of each group
+    # ---- report: one violation per kind of failure (smallest case of the kind, shrunk)
     seen = {}
-    for i, case, why in hits:
-        kind = case.split()[0] + ":" + why.split("(")[0][:60]
-        seen.setdefault(kind, []).append((i, case, why))
+    for i, case, kind, why in hits:
+        seen.setdefault((case.split()[0], kind), []).append((i, case, why))
     nrep = 0
-    for kind, lst in seen.items():
-        if nrep >= 6:
+    for (op, kind), lst in sorted(seen.items(), key=lambda kv: -len(kv[1])):
+        if nrep >= 5:
             break
         lst.sort(key=lambda t: (len(t[1]), t[1]))
         i, case, why = lst[0]
         small = shrink_case(cbin, case) if case != "?" else case
         rc, o, err = run_bin(cbin, small + "\n", timeout=30)
-        line = o[0] if o else "CRASH"
-        why2 = oracle_line(small, line, {}) or why
-        if oracle_line(small, line, {}) is None and not (rc != 0):
-            small, why2 = case, why
+        line = o[0] if o else "ABORT " + " ".join(err.split())[:300]
+        res = oracle_line(small, line, {})
+        if res is None:
+            small = case
             rc, o, err = run_bin(cbin, small + "\n", timeout=30)
-            line = o[0] if o else "CRASH"
+            line = o[0] if o else "ABORT " + " ".join(err.split())[:300]
+            res = oracle_line(small, line, {}) or (kind, why)
         mrc2, mo, _ = run_bin(mbin, small + "\n", timeout=30)
         f = small.split()
-        key = {"E": "a_utf_encode", "R": "a_utf_encode+a_utf_decode", "D": "a_utf_decode", "L": "a_utf_length"}.get(f[0], "utf") + "/" + "_".join(f[1:])
-        ctx.report(key=key[:120], what=why2,
-                   replay={"case_line": small, "original_case_line": case, "format": "see harness/C18/drv.c header",
+        site = {"E": "a_utf_encode", "R": "a_utf_encode+a_utf_decode", "D": "a_utf_decode", "L": "a_utf_length"}.get(f[0], "utf")
+        ctx.report(key=("%s/%s/%s" % (site, res[0], "_".join(f[1:])))[:140], what=res[1],
+                   replay={"case_line": small, "original_case_line": case, "format": "see the header of harness/C18/drv.c",
                            "implementation_output": line, "model_output": mo[0] if mo else None,
                            "failures_of_this_kind": len(lst), "sanitizer": err[-800:] if rc != 0 else "",
-                           "how_to_replay": "echo '%s' | build/C18/drv   (built from $VERIF_REPO/src/utf.c)" % small},
+                           "how_to_replay": "echo '%s' | build/C18/drv    # drv is built from $VERIF_REPO/src/utf.c by the check" % small},
                    found_input=True)
         nrep += 1
-    for idx, err in crashes[:3]:
-        if not any(h[0] == idx for h in hits):
-            ctx.report(key="crash/" + "_".join(lines[idx].split())[:100], what="sanitizer abort: " + " ".join(err.split())[-300:],
-                       replay={"case_line": lines[idx], "sanitizer": err}, found_input=True)
 
     # ---- evidence
     dist, classes = {}, {}
